@@ -27,7 +27,28 @@ type ApiOpts struct {
 	Now   int64
 }
 
+var focus bool
+var savedPromiseIds []string
+
+// Focus narrows the generator to two promise ids and deadlines close to the clock, so that requests collide on
+// the same rows around their deadlines (used when hunting for a failing history)
+func Focus(on bool) {
+	if on == focus {
+		return
+	}
+	focus = on
+	if on {
+		savedPromiseIds = ApiPromiseIds
+		ApiPromiseIds = ApiPromiseIds[:2]
+	} else {
+		ApiPromiseIds = savedPromiseIds
+	}
+}
+
 func (g *G) apiTimeout(now int64) int64 {
+	if focus {
+		return now + []int64{1, 500, 1000, 1000, 2000, 2000, 3000, 100000}[g.R.Intn(8)]
+	}
 	switch g.R.Intn(7) {
 	case 0:
 		return now - 1000
@@ -81,6 +102,7 @@ var AllApiKinds = []t_api.Kind{
 
 // KnownTasks lets the harness bias claim/complete requests to tasks that exist (id, counter).
 type KnownTask struct {
+	Pid string // holder, when claimed
 	Id      string
 	Counter int
 }
@@ -159,7 +181,18 @@ func (g *G) Request(tid string, now int64, kinds []t_api.Kind, tasks []KnownTask
 		id, c := taskRef()
 		r.CompleteTask = &t_api.CompleteTaskRequest{Id: id, Counter: c}
 	case t_api.HeartbeatTasks:
-		r.HeartbeatTasks = &t_api.HeartbeatTasksRequest{ProcessId: g.pick(ProcIds)}
+		pidOf := g.pick(ProcIds)
+		// workers heartbeat for what they hold: prefer the holder of a claimed task
+		var holders []string
+		for _, t := range tasks {
+			if t.Pid != "" {
+				holders = append(holders, t.Pid)
+			}
+		}
+		if len(holders) > 0 && g.R.Intn(4) != 0 {
+			pidOf = holders[g.R.Intn(len(holders))]
+		}
+		r.HeartbeatTasks = &t_api.HeartbeatTasksRequest{ProcessId: pidOf}
 	default:
 		panic(fmt.Sprintf("gen: kind %s", k))
 	}
